@@ -394,7 +394,7 @@ def instances(tier):
     for a in ms:
         for b in ms:
             out.append(inst_stage((a,), (b,)))
-    out.append(inst_stage((2, 2), (2, 2), hi=3 if q else 4))
+    out.append(inst_stage((2, 2), (2, 2), hi=3))  # with sizes <= 4 z3 answers unknown on the NRA obligation
     out.append(inst_stage((2, 1), (1, 2), hi=4))
     out.append(inst_stage_nan())
     out.append(inst_default((2,), (2,)))
